@@ -5,7 +5,7 @@ Driver for C16.  One request line = one run of a transaction block under a fault
 
   run mode=<fast|locked|serializable> timeout=<ticks> attempts=<n> uprio=<b.lk,...|-> faults=<i,j,...|->
       data=<b.k.v.dl,...|-> flocks=<b.lk,...|-> body=<cmd;cmd;...|-> probe=<b.k.v>
-      step=<ticks per lock-step> hlocks=<b.lk,...|-> rel=<i.b.lk,...|-> rb=<head|all>
+      step=<ticks per lock-step> hlocks=<b.lk,...|-> rel=<i.b.lk,...|-> rb=<head|all> obj=<i|->
 
 faults: `i` = command i raises an Exception, `ib` = command i raises a BaseException that is no Exception (CancelledError).
 rb: the loop of `Transaction._rollback` - all = every backend is rolled back, a BaseException is re-raised at the end (as in
@@ -13,7 +13,10 @@ rb: the loop of `Transaction._rollback` - all = every backend is rolled back, a 
 
 body commands: set.b.k.v.ttl  incr.b.k  incr.b.k.ttl  get.b.k  del.b.k  adv.dt  raise  setmany.b.ttl.k:v+k:v+...  delmany.b.k+k+...
                expire.b.k.ttl  setx.b.k.v.ttl (set(..., exist=True))  setnx.b.k.v.ttl (set(..., exist=False))
-(`-` = no ttl / no deadline).  `flocks`: lock keys held by a foreign owner for ever.  `hlocks`: lock keys held by
+               with.<i|-> … end   a nested `async with` on shared context object i (`-`: an object of its own: an inline
+               cache.transaction(…) block or a call of a decorated function); the tokens between `with` and its `end` are its body
+(`-` = no ttl / no deadline).  obj: the context object of the OUTERMOST block (`-`: one of its own); `with.i` inside the
+body with the same i re-enters that very object.  `flocks`: lock keys held by a foreign owner for ever.  `hlocks`: lock keys held by
 contending holders (other open transactions) when the block starts; `rel=i.b.lk`: the holder of (b, lk) releases it
 just before backend command `i`; every holder has finished by the time the remaining locks are reported.
 
@@ -57,6 +60,24 @@ def parseBody? (s : String) : Option BodyCmd :=
     pure (.setMany (← b.toNat?) kvs (← parseOptNat? ttl))
   | ["delmany", b, ks] => do pure (.delMany (← b.toNat?) (← allSome ((ks.splitOn "+").map String.toNat?)))
   | _ => none
+
+/-- the flat token list with `with.o … end` brackets → the nested body; `none` on a stray / missing `end` -/
+partial def parseSeq (toks : List String) (depth : Nat) : Option (List BodyCmd × List String) :=
+  match toks with
+  | [] => if depth = 0 then some ([], []) else none
+  | t :: rest =>
+    if t = "end" then (if depth = 0 then none else some ([], rest))
+    else
+      match t.splitOn "." with
+      | ["with", o] => do
+        let o ← parseOptNat? o
+        let (inner, rest1) ← parseSeq rest (depth + 1)
+        let (tail, rest2) ← parseSeq rest1 depth
+        pure (.block o inner :: tail, rest2)
+      | _ => do
+        let c ← parseBody? t
+        let (tail, rest2) ← parseSeq rest depth
+        pure (c :: tail, rest2)
 
 def parsePair? (s : String) : Option (Nat × Nat) :=
   match s.splitOn "." with
@@ -135,7 +156,8 @@ def runLine (ws : List String) : Option String := do
   let rbAll ← parseRb? (← field? ws "rb")
   let data ← allSome ((splitList (← field? ws "data") ",").map parseData?)
   let flocks ← allSome ((splitList (← field? ws "flocks") ",").map parsePair?)
-  let body ← allSome ((splitList (← field? ws "body") ";").map parseBody?)
+  let (body, _) ← parseSeq (splitList (← field? ws "body") ";") 0
+  let obj ← parseOptNat? (← field? ws "obj")
   let probe ← parseProbe? (← field? ws "probe")
   let step ← (← field? ws "step").toNat?
   let hlocks ← allSome ((splitList (← field? ws "hlocks") ",").map parsePair?)
@@ -143,7 +165,7 @@ def runLine (ws : List String) : Option String := do
   let cfg : Cfg := ⟨mode, timeout, attempts, uprio, fun i => faults.any fun f => f.1 = i, step,
     fun i => (rel.filter fun r => r.1 = i).map fun r => r.2, fun i => faults.any fun f => f.1 = i ∧ f.2, rbAll⟩
   let w0 : FWorld := { FWorld.init with data := data, locks := (flocks ++ hlocks).map fun p => (p, ⟨false, none⟩) }
-  let (r, w1) := runBlock cfg body w0
+  let (r, w1) := runBlockOn cfg obj body w0
   -- every holder has finished (released its lock) before the observer looks at the lock keys
   let w1 := { w1 with locks := envRel hlocks w1.locks }
   let exc := match r with
